@@ -664,7 +664,7 @@ class _BreakCont(ast.NodeTransformer):
 
 
 def _attr(name):
-    return ast.Attribute(value=ast.Name(id='__vc', ctx=ast.Load()), attr=name, ctx=ast.Load())
+    return ast.Attribute(value=ast.Name(id='__vc__', ctx=ast.Load()), attr=name, ctx=ast.Load())
 
 
 def _call(name, *args):
@@ -809,12 +809,16 @@ class LoopCut(ast.NodeTransformer):
         havoc = ast.Assign(targets=[havoc_t], value=_call('loop_havoc', label, _dict_of(live), ast.Constant(tuple(mod)))) if mod else \
             ast.Expr(_call('loop_havoc', label, _dict_of(live), ast.Constant(())))
         if isinstance(loop, ast.For):
-            if not (isinstance(loop.iter, ast.Call) and isinstance(loop.iter.func, ast.Name) and loop.iter.func.id == 'range'
+            if (isinstance(loop.iter, ast.Call) and isinstance(loop.iter.func, ast.Name) and loop.iter.func.id == 'range'
                     and len(loop.iter.args) == 1):
-                raise Undecided('LoopCut: only "for x in range(N)" loops are supported (%s#%d)' % (qual, k))
-            N = loop.iter.args[0]
-            head = [ast.Assign(targets=[loop.target], value=_call('loop_index', label, N))]
-            after = [ast.Assign(targets=[copy.deepcopy(loop.target)], value=_call('loop_exit_for', label, copy.deepcopy(N)))]
+                N = loop.iter.args[0]
+                head = [ast.Assign(targets=[loop.target], value=_call('loop_index', label, N))]
+                after = [ast.Assign(targets=[copy.deepcopy(loop.target)], value=_call('loop_exit_for', label, copy.deepcopy(N)))]
+            else:
+                # general iterable: N = length of the iterable, target = an arbitrary element
+                N = _call('length', copy.deepcopy(loop.iter))
+                head = [ast.Assign(targets=[loop.target], value=_call('element', copy.deepcopy(loop.iter), _call('loop_index', label, N)))]
+                after = [ast.Expr(_call('loop_exit_for', label, copy.deepcopy(N)))]
         else:
             head = [ast.Expr(_call('require', copy.deepcopy(loop.test)))]
             after = [ast.Expr(_call('require', ast.UnaryOp(op=ast.Not(), operand=copy.deepcopy(loop.test))))]
@@ -843,6 +847,9 @@ class VC:
 
     def loop_entry(self, label, live):
         spec = self.loops[label]
+        if spec.entry:
+            for name, cl in spec.entry(live, cur()).items():
+                check('%s/at-loop-entry/%s' % (label, name), cl)
         if spec.peel:
             return            # the peeled first iteration establishes the invariant (see loop_havoc)
         for name, cl in spec.inv(live, cur()).items():
@@ -854,7 +861,7 @@ class VC:
         if spec.peel and nondet(label + '/peel'):
             # first iteration, run from the real entry state
             ctx.ghost[('first', label)] = True
-            return tuple(live[k] for k in names)
+            return tuple(live.get(k) for k in names)
         ctx.ghost[('first', label)] = False
         fresh = spec.havoc(live, names, ctx)
         new = dict(live)
@@ -863,7 +870,7 @@ class VC:
             assume(cl)
         if spec.after_havoc:
             spec.after_havoc(new, ctx)
-        return tuple(new[k] for k in names)
+        return tuple(new.get(k) for k in names)
 
     def nondet(self, label):
         return nondet(label)
@@ -899,6 +906,14 @@ class VC:
         cur().ghost['callsite:' + name] = k
         return fn
 
+    def length(self, it):
+        from . import shapearr
+        return shapearr.sym_len(it)
+
+    def element(self, it, i):
+        for x in it:
+            return x
+
     def hyp(self, label, value):
         f = self.hypotheses.get(label)
         if f is not None:
@@ -924,7 +939,8 @@ class VC:
 
 
 class LoopSpec:
-    def __init__(self, inv, havoc, after_havoc=None, peel=False):
+    def __init__(self, inv, havoc, after_havoc=None, peel=False, entry=None):
+        self.entry = entry          # (live dict, ctx) -> clauses checked at loop entry only (not part of the invariant)
         self.inv = inv              # (live dict, ctx) -> OrderedDict name -> term
         self.havoc = havoc          # (live dict, names, ctx) -> dict name -> fresh value
         self.after_havoc = after_havoc
@@ -935,7 +951,7 @@ class LoopSpec:
 # loader
 # ---------------------------------------------------------------------------
 
-def load_module(relpath, cuts=(), overrides=None, modname=None, tag=(), hyps=(), sites=()):
+def load_module(relpath, cuts=(), overrides=None, modname=None, tag=(), hyps=(), sites=(), optional_cuts=()):
     """parse /repo/<relpath>, cut the loops in ``cuts`` ({(qualname, ordinal)}), exec with shims.
     Returns (namespace dict, vc object, info dict)."""
     install_sksparse_stub()
@@ -943,17 +959,17 @@ def load_module(relpath, cuts=(), overrides=None, modname=None, tag=(), hyps=(),
     with open(path) as f:
         src = f.read()
     tree = ast.parse(src, filename=path)
-    lc = LoopCut(set(cuts), tag, hyps, sites)
+    lc = LoopCut(set(cuts) | set(optional_cuts), tag, hyps, sites)
     tree = lc.visit(tree)
     ast.fix_missing_locations(tree)
-    missing = set(cuts) - lc.done
+    missing = set(cuts) - lc.done        # optional cuts may be absent
     if missing:
         raise Undecided('LoopCut: loops %s not found in %s' % (sorted(missing), relpath))
     code = compile(tree, path, 'exec')
     name = modname or ('vtp_' + relpath.replace('/', '_').replace('.py', ''))
     ns = {'__name__': name, '__file__': path, '__builtins__': builtins}
     vc = VC()
-    ns['__vc'] = vc
+    ns['__vc__'] = vc
     exec(code, ns)
     import numpy as _onp
     for k in ('np', 'jnp'):
@@ -989,7 +1005,7 @@ def fn_sha(ns_or_src_path, fname):
 # ---------------------------------------------------------------------------
 
 def run_contract(S, qualname, run, pre, post, *, file=None, max_paths=5000, gram=True, replay=None,
-                 extra_hyps=None, timeout=None):
+                 extra_hyps=None, timeout=None, instance=''):
     """run(): executes the real function on proxies and returns its result (inside an exploration).
     post(result, ctx) -> OrderedDict clause -> term.  Adds obligations to the session; returns path info."""
     SPACE[0] = GramSpace() if SPACE[0] is None else SPACE[0]
@@ -1028,7 +1044,7 @@ def run_contract(S, qualname, run, pre, post, *, file=None, max_paths=5000, gram
         for (name, hyps, goal, hints) in obls:
             if not name.startswith(qualname):
                 name = qualname + '/' + name
-            S.add('%s@path%d' % (name, pi), list(hyps) + list(extra_hyps or []) + basic, goal, kind='nra',
+            S.add('%s@path%s%d' % (name, (instance + '/') if instance else '', pi), list(hyps) + list(extra_hyps or []) + basic, goal, kind='nra',
                   hints=list(hints) + cs, prov=dict(function=qualname, path=pi, decisions=len(ctx.prefix)),
                   replay=replay, timeout=timeout)
     S.notes.append('%s: %d paths explored, %d returned' % (qualname, len(paths), nret))
